@@ -401,7 +401,7 @@ def _workload(tier, rng, shard, nshards):
                 wav.replaceSegment(i0 / rate, i1 / rate, W.encode(new, wav.sampleWidth))
             REC.cls("C18:requery-after-in-place-edit")
             guarded(wav.findNearestZeroCrossing, t, st)
-    nt = (400 if tier == "quick" else 12000) // nshards
+    nt = (1200 if tier == "quick" else 16000) // nshards
     for k in range(nt):
         rate = rng.choice((1000, 8000, 16000))
         wav, samples, rate, n = mk_wav(rng, rng.choice(("random", "sine", "sparse-zero", "single-crossing", "all-positive")), n=rng.randrange(40, 240), width=rng.choice((2, 4)), rate=rate)
@@ -414,7 +414,7 @@ def _workload(tier, rng, shard, nshards):
             ents.append((pts[i] / rate, pts[i + 1] / rate, "e%d" % len(ents)))
             i += rng.choice((1, 2))
         tg.addTier(make_tier("I", "words", ents, 0.0, dur), reportingMode="silence")
-        tg.addTier(make_tier("P", "marks", [(p / rate, "m%d" % j) for j, p in enumerate(sorted(rng.sample(range(0, n + 1), rng.randrange(0, 4))))], 0.0, dur), reportingMode="silence")
+        tg.addTier(make_tier("P", "marks", [(p / rate, rng.choice(["m", "m", "n"]) if k % 2 else "m%d" % j) for j, p in enumerate(sorted(rng.sample(range(0, n + 1), rng.randrange(0, 6))))], 0.0, dur), reportingMode="silence")
         guarded(praatio_scripts.tgBoundariesToZeroCrossings, tg.new(), wav, rng.random() < 0.8, rng.random() < 0.8)
         seg, _, _, _ = mk_wav(rng, rng.choice(("sine", "random", "sparse-zero")), n=rng.randrange(8, 60), width=wav.sampleWidth, rate=rate)
         start = rng.choice([0.0, dur, rng.randrange(0, n + 1) / rate, rng.choice(pts) / rate])
